@@ -84,6 +84,9 @@ impl<'a> Walk<'a> {
                 let op = eng::pos_of_ident(&other);
                 self.vio("key-collision", format!("key {:#018x} shared with different position {}", h.0, op.to_fen_with_ep(op.ep)));
             }
+            if let Some(other) = self.ctx.keymap.bind_rev(g.zobrist.0, id) {
+                self.vio("key-depends-on-history", format!("this position (placement, side, rights, en-passant target) has key {:#018x} here and had key {other:#018x} when it was met before (halfmove clock here {})", g.zobrist.0, g.halfmove_clock));
+            }
         }
         if self.om.accum {
             let init = crate::engine::eval::IncrementalEvalFields::init(&g.board);
